@@ -2,5 +2,6 @@
 package props
 
 import (
+	_ "verifharness/props/c03"
 	_ "verifharness/props/c20"
 )
